@@ -279,7 +279,8 @@ def run_print(chk, bindir, tier):
 
     def load_scale():
         try:
-            return max(1.0, os.getloadavg()[0] / (os.cpu_count() or 1))
+            # scaled with the load, but bounded: a true hang must not cost hours to confirm
+            return min(3.0, max(1.0, os.getloadavg()[0] / (os.cpu_count() or 1)))
         except OSError:
             return 1.0
 
